@@ -136,6 +136,11 @@ class Interp(object):
       r = h(node, st, self)
       if r is not NotImplemented:
         return r
+    if isinstance(node, ast.Subscript) and isinstance(node.slice, ast.Constant) and \
+        isinstance(node.slice.value, int):
+      base = self.value(node.value, st)
+      if isinstance(base, tuple) and -len(base) <= node.slice.value < len(base):
+        return base[node.slice.value]
     return Sym(self.subst_text(node, st), node)
 
   def subst_text(self, node, st):
@@ -271,6 +276,35 @@ class Interp(object):
       raise AnalysisError('abstract interpretation of %s exceeds %d paths' %
                           (self.fn.name, self.max_paths))
 
+  # -- inlining a small callee --------------------------------------------------
+  def inline(self, fn_node, args, st, depth_limit=2):
+    """Interpret a callee with the same hooks; returns its value when every
+    path returns the same abstract value (effects of the callee are appended
+    to the caller's state), else NotImplemented."""
+    depth = getattr(self, '_inline_depth', 0)
+    if depth >= depth_limit:
+      return NotImplemented
+    sub = Interp(fn_node, self.hooks, self.max_paths)
+    sub._inline_depth = depth + 1
+    s0 = State(env=args, facts=st.facts, trace=st.trace, effects=[])
+    try:
+      outs = sub.run(s0)
+    except AnalysisError:
+      return NotImplemented
+    self.paths += sub.paths
+    vals = []
+    for o in outs:
+      if o.kind not in ('return', 'fall'):
+        return NotImplemented
+      vals.append(o)
+    if not vals:
+      return NotImplemented
+    first = repr(vals[0].value)
+    if any(repr(o.value) != first for o in vals[1:]):
+      return NotImplemented
+    st.effects.extend(vals[0].state.effects)
+    return vals[0].value
+
   # -- statements -------------------------------------------------------------
   def run(self, st=None):
     st = st or State()
@@ -330,6 +364,13 @@ class Interp(object):
       cur = self.value(node.target, st) if isinstance(node.target, ast.Name) else None
       h2 = self.hooks.get('augassign')
       res = h2(node, cur, v, st, self) if h2 else NotImplemented
+      if res is NotImplemented and isinstance(node.target, ast.Name):
+        # x op= e  is  x = x op e
+        binop = ast.BinOp(left=ast.Name(id=node.target.id, ctx=ast.Load()),
+                          op=node.op, right=node.value)
+        ast.copy_location(binop, node)
+        ast.fix_missing_locations(binop)
+        res = self.value(binop, st)
       if res is NotImplemented:
         res = Sym(norm(node), node)
       self.assign(node.target, res, st)
